@@ -9,14 +9,16 @@ EXTENDS Store
 
 CharsOf == [ a |-> <<"a">>, ab |-> <<"a", ".", "b">>, a_b |-> <<"a", "_", "b">>, x1 |-> <<"1", "x">>,
              uy |-> <<"_", "y">>, qartod |-> <<"q","a","r","t","o","d">>,
-             gross |-> <<"g","r","o","s","s">>, spike |-> <<"s","p","i","k","e">> ]
+             gross |-> <<"g","r","o","s","s">>, spike |-> <<"s","p","i","k","e">>,
+             axds |-> <<"a","x","d","s">>, valid |-> <<"v","a","l","i","d">> ]
 StreamIds == {"a", "ab", "a_b", "x1", "uy"}
 
-Tb(s1, s2) == [t |-> <<0, 10, 20>>, data |-> (s1 :> <<0, 5, 0>>) @@ (s2 :> <<1, 1, 5>>), z |-> <<0, 1, 2>>,
+Tb(s1, s2) == [t |-> <<0, 10, 20>>, hastime |-> TRUE, data |-> (s1 :> <<0, 5, 0>>) @@ (s2 :> <<1, 1, 5>>), z |-> <<0, 1, 2>>,
                lat |-> <<>>, lon |-> <<>>]
 G(s) == [stream |-> s, fn |-> "gross", p |-> [fail |-> <<0, 4>>, susp |-> <<>>]]
 S(s) == [stream |-> s, fn |-> "spike", p |-> [st |-> <<1, 1>>, ft |-> <<3, 1>>, method |-> "average"]]
-Cfg(s1, s2) == << [win |-> <<NA, 20>>, entries |-> <<G(s1), S(s1)>>], [win |-> <<20, NA>>, entries |-> <<G(s1), G(s2)>>] >>
+V(s) == [stream |-> s, fn |-> "valid", p |-> [lo |-> 1, hi |-> NA, sincl |-> TRUE, eincl |-> FALSE, kind |-> "num"]]
+Cfg(s1, s2) == << [win |-> <<NA, 20>>, entries |-> <<G(s1), S(s1)>>], [win |-> <<20, NA>>, entries |-> <<G(s1), G(s2), V(s2)>>] >>
 
 Items(s1, s2) == { <<>>, << [kind |-> "stream", v |-> s1] >>, << [kind |-> "test", v |-> "spike"] >>,
                    << [kind |-> "func", v |-> "gross"], [kind |-> "stream", v |-> s2] >> }
